@@ -238,6 +238,22 @@ class Runtime:
                 del mp.graph.input[:]
                 mp.graph.input.extend(keep)
                 mp.graph.initializer.extend(t for _, t in inits)
+            mut = m.get("attr_mut")
+            if mut:
+                # the same operator with another value of one attribute (often one its reference kernel does not support)
+                node = mp.graph.node[mut["node"]]
+                hit = [a for a in node.attribute if a.name == mut["attr"]]
+                if hit:
+                    a = hit[0]
+                else:
+                    a = node.attribute.add()
+                    a.name = mut["attr"]
+                if "int" in mut:
+                    a.type = onnx.AttributeProto.INT
+                    a.i = int(mut["int"])
+                else:
+                    a.type = onnx.AttributeProto.STRING
+                    a.s = mut["str"].encode()
             return mp
         raise ValueError(m["pool"])
 
